@@ -11,7 +11,7 @@ import servercore_common as sc
 
 def body(run):
     sc.core_check(
-        run, "C32", [("ServerCoreGen_ids.cfg", run.pick(12, 150), 7),
+        run, "C32", [("ServerCoreGen_ids.cfg", run.pick(8, 150), 7),
                      # every successful create/delete history of 6 requests of one session (id freshness patterns)
                      ("ServerCoreGen_freshsub.cfg", None, None), ("ServerCoreGen_freshitem.cfg", None, None),
                      # ONE request with 2 / 3 (thorough: 4) distinct ids in every order of own / foreign / never-issued
